@@ -259,7 +259,7 @@ def extra_engines(tier, seed, args):
     hs = [] if tier == 'quick' else ['detect_from_never_panics_utf8_5']
     if not hs or getattr(args, 'only', None):
         return {'inconclusive': [], 'violations': [], 'evidence': None}
-    return kani.extra(hs, 300 if tier == 'quick' else 1500, 'detect_from never panics on any valid UTF-8 string of <=5 bytes (real std, no stub)')
+    return kani.extra(hs, 600 if tier == 'quick' else 2400, 'detect_from never panics on any valid UTF-8 string of <=5 bytes (real std, no stub)')
 
 
 def kani_replay(v):
